@@ -79,7 +79,7 @@ Definition xpub_try (m : mode) (x : xpub) (len : Z) (act : log -> outcome append
   | _ => (x, Panic)
   end.
 
-Definition xpub_offer (m : mode) (rv : Z -> Z -> Z) (x : xpub) (msg : list Z) : xpub * outcome Z :=
+Definition xpub_offer (m : mode) (rv : Z -> Z -> list Z -> Z) (x : xpub) (msg : list Z) : xpub * outcome Z :=
   let len := zlen msg in
   xpub_try m x len (fun l =>
     if len <=? max_payload_length l then eta_append_unfragmented m rv l (x_idx x) (x_tid x) (x_off x) msg
@@ -92,7 +92,7 @@ Definition xpub_claim (m : mode) (x : xpub) (len : Z) : xpub * outcome Z :=
 
 (* the exclusive publication has no offer_bulk: a Bulk operation in a history does nothing to it
    (the exclusive appender's vectored append is exercised directly, see Model/PubCases.v) *)
-Definition xpub_step (m : mode) (rv : Z -> Z -> Z) (x : xpub) (o : op) : xpub * outcome Z :=
+Definition xpub_step (m : mode) (rv : Z -> Z -> list Z -> Z) (x : xpub) (o : op) : xpub * outcome Z :=
   match o with
   | Offer msg => xpub_offer m rv x msg
   | Claim len => xpub_claim m x len
@@ -104,11 +104,11 @@ Definition xpub_step (m : mode) (rv : Z -> Z -> Z) (x : xpub) (o : op) : xpub * 
 Definition xpub_position (m : mode) (x : xpub) : outcome Z :=
   if ps_closed (x_pub x) then Err Closed else add64 m (x_begin x) (x_off x).
 
-Fixpoint xpub_run (m : mode) (rv : Z -> Z -> Z) (x : xpub) (ops : list op) : xpub :=
+Fixpoint xpub_run (m : mode) (rv : Z -> Z -> list Z -> Z) (x : xpub) (ops : list op) : xpub :=
   match ops with [] => x | o :: r => xpub_run m rv (fst (xpub_step m rv x o)) r end.
 
 Definition xpub_obs (m : mode) (x x' : xpub) (r : outcome Z) := (r, log_delta (xlog x) (xlog x'), xpub_position m x').
-Fixpoint xpub_trace (m : mode) (rv : Z -> Z -> Z) (x : xpub) (ops : list op) :=
+Fixpoint xpub_trace (m : mode) (rv : Z -> Z -> list Z -> Z) (x : xpub) (ops : list op) :=
   match ops with
   | [] => []
   | o :: r => let '(x', res) := xpub_step m rv x o in xpub_obs m x x' res :: xpub_trace m rv x' r
